@@ -22,6 +22,7 @@ static uint64_t vf_execs = 0, vf_nt_execs = 0;
 static unsigned char *vf_bitmap = NULL;
 static const char *vf_counters_path = NULL;
 static int vf_samples_written = 0;
+static uint64_t vf_known_excluded;
 extern const char *const VF_CLASS_NAMES[];
 extern const int VF_N_CLASSES;
 
@@ -38,7 +39,7 @@ static void vf_flush(void) {
     snprintf(tmp, sizeof tmp, "%s.tmp", vf_counters_path);
     f = fopen(tmp, "w");
     if (!f) return;
-    fprintf(f, "execs %llu\nnontrivial_execs %llu\n", (unsigned long long)vf_execs, (unsigned long long)vf_nt_execs);
+    fprintf(f, "execs %llu\nnontrivial_execs %llu\nknown_excluded %llu\n", (unsigned long long)vf_execs, (unsigned long long)vf_nt_execs, (unsigned long long)vf_known_excluded);
     for (i = 0; i < VF_N_CLASSES && i < VF_MAX_CLASSES; i++) fprintf(f, "class %s %llu\n", VF_CLASS_NAMES[i], (unsigned long long)vf_class_count[i]);
     fclose(f);
     rename(tmp, vf_counters_path);
@@ -85,6 +86,17 @@ static void vf_fail(const char *msg) {
     fflush(stderr);
     vf_flush();
     __builtin_trap();
+}
+/* open known findings (signatures separated by ';' in $VF_KNOWN_OPEN): a target excludes such an input class by
+ * construction:  if (bad) { if (vf_known("api: class")) return 0; vf_fail("..."); } */
+static int vf_known(const char *sig) {
+    const char *k = getenv("VF_KNOWN_OPEN"); size_t n = strlen(sig);
+    while (k && *k) {
+        const char *e = strchr(k, ';'); size_t l = e ? (size_t)(e - k) : strlen(k);
+        if (l == n && memcmp(k, sig, n) == 0) { vf_known_excluded++; return 1; }
+        k = e ? e + 1 : NULL;
+    }
+    return 0;
 }
 #define VF_CHECK(cond, msg) do { if (!(cond)) vf_fail(msg); } while (0)
 
